@@ -54,6 +54,7 @@ def c01_presence(tier, seed):
                     'for every pair (both endpoint orders), q in -2..7; acceptance compared with the documented rule; '
                     'non-trivial = distinct representation state with at least one interaction')
     extra = [('path', (1, 2, 3), 1), ('star', (2, 1, 3), 2), ('cycle', (1, 2, 3), 0), ('from', ((1, 2), (2, 3), (1, 2)), 1, 3)]
+    other = {}
     for cls, removal, h in histories(tier, seed, odd_ids=True, extra_calls=extra):
         G, M, outs = run_history(cls, removal, h)
         bad = [(c, o) for c, o in zip(h, outs) if o[0] != o[1]]
@@ -77,6 +78,19 @@ def c01_presence(tier, seed):
                 if not M.ever(a, b):
                     if G.has_interaction(a, b) or any(G.has_interaction(a, b, q) for q in qs_of(M)):
                         col.violation('C01.other_pairs_unaffected', cls, removal, h, 'pair (%r,%r) never added but reported present' % (a, b))
+        # another live graph of the same class over the same node ids, queried before and again after this one
+        if cls in other and other[cls][3] != h:
+            G0, M0, r0, h0 = other[cls]
+            for k in M0.keys():
+                for q in qs_of(M0):
+                    if bool(G0.has_interaction(k[0], k[1], q)) != M0.present(k[0], k[1], q):
+                        col.violation('C01.presence_is_union_of_spans.with_another_live_graph', cls, r0,
+                                      [('two live graphs: this one queried, then', h, 'queried, then this one again')] + list(h0),
+                                      'has_interaction(%r,%r,%r) = %r after another graph of the class was queried'
+                                      % (k[0], k[1], q, G0.has_interaction(k[0], k[1], q)))
+                        break
+        if M.keys() and col.evaluations % 3 == 0:
+            other[cls] = (G, M, removal, h)
         if col.full():
             break
     return col.result(bound='<=3 nodes, instants 0..4 (+ two shifted structured histories), histories <=4 calls')
@@ -114,6 +128,18 @@ def check_canonical(G, M, col, cls, removal, h, check='C03.canonical_timeline'):
             for b, dd in nb.items():
                 if G._adj[b][a] is not dd:
                     col.violation(check, cls, removal, h, 'the two directions of %r-%r do not share one timeline object' % (a, b))
+    # the union of the exposed timeline is the presence set the queries report
+    for k, tl in tls.items():
+        if k in M.pres and isinstance(tl, list):
+            try:
+                un = set(q for iv in tl for q in range(iv[0], iv[1] + 1))
+            except Exception:
+                continue
+            for q in qs_of(M):
+                if bool(G.has_interaction(k[0], k[1], q)) != (q in un):
+                    col.violation(check, cls, removal, h, 'pair %r: timeline %r but has_interaction(%r,%r,%r) = %r'
+                                  % (k, tl, k[0], k[1], q, G.has_interaction(k[0], k[1], q)))
+                    break
     # the same through the public API
     its = G.interactions() if not M.directed else G.out_interactions()
     for it in its:
@@ -149,6 +175,7 @@ def c03_canonical(tier, seed):
                     'non-trivial = distinct state with at least one interaction')
     for cls in ('DynGraph', 'DynDiGraph'):
         _d23_probe(col, cls)
+    other = {}
     for cls, removal, h in histories(tier, seed, odd_ids=True):
         G, M, outs = run_history(cls, removal, h)
         if any(o[0] != o[1] for o in outs):
@@ -156,6 +183,13 @@ def c03_canonical(tier, seed):
         if not col.seen(state_key(G), bool(M.keys()), {'class': cls, 'history': h}):
             continue
         check_canonical(G, M, col, cls, removal, h)
+        # another live graph of the same class over the same node ids, examined before and again after this one
+        if cls in other and other[cls][1].keys() and other[cls][3] != h:
+            G0, M0, r0, h0 = other[cls]
+            check_canonical(G0, M0, col, cls, r0, [('two live graphs: this one examined, then', h, 'examined, then this one again')] + list(h0),
+                            check='C03.canonical_timeline.with_another_live_graph')
+        if M.keys() and col.evaluations % 3 == 0:
+            other[cls] = (G, M, removal, h)
         if col.full():
             break
     return col.result(bound='<=3 nodes, instants 0..4, histories <=4 calls')
@@ -306,6 +340,32 @@ def c05_stream(tier, seed):
 
 # ---------------------------------------------------------------------------------------------- C07
 
+def _list_span_probe(col, cls):
+    """the (undocumented, but accepted) list form t=[first,last] of a span: a list object that an accepted call received is used
+    again in a call that is rejected; the rejected call must leave no trace even if the graph kept the object"""
+    for (pair2, e) in (((0, 1), 8), ((2, 3), 8), ((0, 1), 12)):
+        G = new_graph(cls, True)
+        span = [5, 9]
+        h = [('add', 0, 1, [5, 9], None), ('add', pair2[0], pair2[1], 20, 23)]
+        try:
+            G.add_interaction(0, 1, span)
+            G.add_interaction(pair2[0], pair2[1], 20, 23)
+        except Exception:
+            continue                # the list form is not accepted: nothing to check
+        before = dump(G)
+        c = ('add', pair2[0], pair2[1], [5, 9], e)
+        col.seen(('list-span', cls, pair2, e), True, {'class': cls, 'history': h, 'rejected_call': c})
+        try:
+            G.add_interaction(pair2[0], pair2[1], span, e)
+            col.violation('C07.rejection_expected', cls, True, h + [c], 'call %r (span starts before the latest run) was accepted' % (c,))
+            continue
+        except (ValueError, nx.NetworkXError):
+            pass
+        if dump(G) != before:
+            col.violation('C07.no_trace', cls, True, h + [c], 'state changed by the rejected call %r that re-uses the list object of an '
+                          'accepted call: %r -> %r' % (c, before, dump(G)))
+
+
 def c07_rejected_leaves_no_trace(tier, seed):
     col = Collector('every reachable state of the C01 history space (both modes) x every call of the alphabet that the documented rule rejects '
                     '(plus t=None): observable state (nodes, attributes, timelines, stream, snapshot ids and counts) compared before/after, and a '
@@ -313,6 +373,8 @@ def c07_rejected_leaves_no_trace(tier, seed):
                     'the prefix; non-trivial = distinct (state, rejected call)')
     from .core import call_alphabet
     alpha = call_alphabet()
+    for cls in ('DynGraph', 'DynDiGraph'):
+        _list_span_probe(col, cls)
     for cls, removal, h in histories(tier, seed, odd_ids=True, modes=(True, False), n_random=60 if tier == 'quick' else 3000):
         G, M, outs = run_history(cls, removal, h)
         if any(o[0] != o[1] for o in outs):
